@@ -310,7 +310,7 @@ if bad:
 SHAPES = ["file", "dir", "other", "absent"]
 
 
-def gen_tree(c, fs, base, depth, names):
+def gen_tree(c, fs, base, depth, names, sub=1):
     """populate fs under `base` with a symbolic tree; returns nothing"""
     for nm in names:
         k = SHAPES[c.choose(len(SHAPES), "entry")]
@@ -326,17 +326,17 @@ def gen_tree(c, fs, base, depth, names):
         else:
             fs.nodes[p] = ("dir",)
             if depth > 1:
-                gen_tree(c, fs, p, depth - 1, names[:1])
+                gen_tree(c, fs, p, depth - 1, names[:sub], sub)
 
 
-def ob_tree(run, interp, depth):
+def ob_tree(run, interp, depth, sub=1):
     from rpyc.utils import classic
 
     def ob(o):
         o.symbolic = ["source tree: each entry file/dir/other/absent (exhaustive), depth <= %d, fan-out <= 2" % depth,
                       "file lengths: Int in [0, 64000]", "filter: none, or an uninterpreted predicate on names",
                       "destination directory exists beforehand?", "direction: upload / download"]
-        o.bounds = {"depth": depth, "fan_out": 2, "chunk_size": "default (64000): files need <= 2 reads"}
+        o.bounds = {"depth": depth, "fan_out": 2, "fan_out_below_top": sub, "chunk_size": "default (64000): files need <= 2 reads"}
         acc = Acc()
 
         def harness(c):
@@ -347,7 +347,7 @@ def ob_tree(run, interp, depth):
             top = SHAPES[c.choose(3, "top")]            # the path itself: file / dir / other
             if top == "dir":
                 src.nodes["s"] = ("dir",)
-                gen_tree(c, src, "s", depth, ["a", "b"])
+                gen_tree(c, src, "s", depth, ["a", "b"], sub)
             elif top == "file":
                 n = c.fresh_int("flen")
                 c.assume(z3.And(n >= 0, n <= 64000))
@@ -555,9 +555,12 @@ def main():
                        "symlinks, permissions and deeper/wider trees are outside the claim"]
     run.obligation("T0_translator", "interpreter + model file system == CPython + real files on upload_file", translator_validation(run, interp))
     run.obligation("O1_file_chunks", "upload_file/download_file: destination == source for every size and chunk size",
-                   ob_file(run, interp, 6 if thorough else 4))
+                   ob_file(run, interp, 10 if thorough else 4))
     run.obligation("O2_trees", "upload/download of a tree: destination == filtered source, same relative names",
                    ob_tree(run, interp, 2))
+    if thorough:
+        run.obligation("O2_trees_deep", "the same for trees of depth 3", ob_tree(run, interp, 3))
+        run.obligation("O2_trees_wide", "the same for depth 2 with two entries in every directory", ob_tree(run, interp, 2, 2))
     run.note_encoded(interp)
     sys.exit(run.finish())
 
